@@ -10,6 +10,7 @@
 import Proofs.C18
 import Proofs.C18Partition
 import Proofs.C18Derived
+import Proofs.C18Sample
 
 namespace Taurex.C18
 open Taurex Taurex.Variance
@@ -164,5 +165,62 @@ theorem derived_order_tie_witness :
     derivedTraceGatherPinned 2 [(1 : Rat), 1, 1] [(10 : Rat), 11, 12] = [10, 12, 11] ∧
     derivedTraceGather 2 [(10 : Rat), 11, 12] = [10, 11, 12] := by
   decide +kernel
+
+/-- **drawn_samples_once** (`Optimizer.sample_parameters` → `generate_profiles`): whatever list of indices below `n` is drawn
+    (`random.sample(range(n), int(n*sigma_fraction))`), every drawn sample is yielded exactly once (weight raised by the
+    positive floor `1e-300`), and for every number of ranks the pooled result is the single-process result: the two-pass
+    weighted variance of the drawn samples, NaN with fewer than two. -/
+theorem drawn_samples_once {size : ℕ} (hs : 0 < size) {floor : ℝ} (hf : 0 < floor) (samples : List (ℝ × ℝ))
+    (hw : ∀ p ∈ samples, 0 ≤ p.2) (draw : List ℕ) (hlt : ∀ i ∈ draw, i < samples.length) :
+    (sampleParameters draw floor samples).length = draw.length ∧
+    postProcess size draw floor samples = pooledVariance id [sampleParameters draw floor samples] ∧
+    postProcess size draw floor samples =
+      if draw.length < 2 then some Val.nan else some (Val.fin (twoPassVar (sampleParameters draw floor samples))) := by
+  have hl := sampleParameters_length floor samples hlt
+  have := split_invariant hs (sampleParameters draw floor samples) (sampleParameters_pos hf hw)
+  rw [hl] at this
+  exact ⟨hl, this.1, this.2⟩
+
+/-- non-vacuity: two of three samples drawn (a fraction below 1), three ranks (one of them empty) -/
+example : postProcess 3 [2, 0] (1 / 2 : ℝ) [((1 : ℝ), (0 : ℝ)), (4, 1), (2, 3)] =
+    pooledVariance id [sampleParameters [2, 0] (1 / 2 : ℝ) [((1 : ℝ), (0 : ℝ)), (4, 1), (2, 3)]] :=
+  (drawn_samples_once (size := 3) (by norm_num) (by norm_num) _
+    (by intro p hp; simp at hp; rcases hp with rfl | rfl | rfl <;> norm_num) [2, 0]
+    (by intro i hi; simp at hi; rcases hi with rfl | rfl <;> simp)).2.1
+
+/-- **sigma_fraction_one_all_samples**: an optimizer built with `sigma_fraction = 1` (through whichever concrete
+    constructor: `heldFraction` is what reaches the base class) draws `int(n*1.0) = n` distinct indices below `n`, i.e.
+    EVERY posterior sample exactly once, and for every number of ranks the pooled variance is the two-pass weighted
+    variance of ALL samples (floored weights), NaN with fewer than two. -/
+theorem sigma_fraction_one_all_samples {size : ℕ} (hs : 0 < size) {floor : ℝ} (hf : 0 < floor)
+    (samples : List (ℝ × ℝ)) (hw : ∀ p ∈ samples, 0 ≤ p.2) (draw : List ℕ) (hnd : draw.Nodup)
+    (hlt : ∀ i ∈ draw, i < samples.length)
+    (hlen : draw.length = drawCount (fun k : ℕ => (k : ℝ)) (fun x : ℝ => ⌊x⌋₊) samples.length
+      (heldFraction (0.1 : ℝ) (some 1))) :
+    (sampleParameters draw floor samples).Perm (samples.map (fun p => (p.1, p.2 + floor))) ∧
+    postProcess size draw floor samples =
+      if samples.length < 2 then some Val.nan
+      else some (Val.fin (twoPassVar (samples.map (fun p => (p.1, p.2 + floor))))) := by
+  have hk : draw.length = samples.length := by
+    rw [hlen]
+    simp only [heldFraction, Option.getD_some]
+    exact drawCount_one _
+  have hperm : draw.Perm (List.range samples.length) := by
+    refine (List.subperm_of_subset hnd ?_).perm_of_length_le ?_
+    · intro i hi
+      exact List.mem_range.2 (hlt i hi)
+    · rw [List.length_range, hk]
+  have hp := sampleParameters_perm floor samples hperm
+  refine ⟨hp, ?_⟩
+  have h := (drawn_samples_once hs hf samples hw draw hlt).2.2
+  rw [h, hk, twoPassVar_perm hp]
+
+/-- non-vacuity: three samples (one of weight 0), drawn in the order 2, 0, 1, on two ranks -/
+example : (sampleParameters [2, 0, 1] (1 / 2 : ℝ) [((1 : ℝ), (0 : ℝ)), (4, 1), (2, 3)]).Perm
+    ([((1 : ℝ), (0 : ℝ)), (4, 1), (2, 3)].map (fun p => (p.1, p.2 + 1 / 2))) :=
+  (sigma_fraction_one_all_samples (size := 2) (by norm_num) (by norm_num) _
+    (by intro p hp; simp at hp; rcases hp with rfl | rfl | rfl <;> norm_num) [2, 0, 1] (by decide)
+    (by intro i hi; simp at hi; rcases hi with rfl | rfl | rfl <;> simp)
+    (by simp [heldFraction, drawCount])).1
 
 end Taurex.C18
